@@ -2,7 +2,7 @@
 import hc_streams
 import hc_oracles as O
 
-QUICK = {"pair": 120, "ideal": 50, "live": 40, "blackout": 30, "ratepair": 50, "hostile": 200, "tx": 80, "rate": 500, "twin": 80, "reuse": 60, "ackflood": 12, "chanmix": 60, "tswin": 60, "ideallat": 40, "cadence": 10, "mixack": 60}
+QUICK = {"pair": 120, "ideal": 50, "live": 40, "blackout": 30, "ratepair": 50, "hostile": 200, "tx": 80, "rate": 500, "twin": 80, "reuse": 60, "ackflood": 12, "chanmix": 60, "tswin": 60, "ideallat": 40, "cadence": 10, "mixack": 60, "rttstep": 6}
 import os
 # depth of the thorough tier (overridable for a quicker self-validation run of the machinery)
 THOROUGH_FACTOR = int(os.environ.get("VERIF_THOROUGH_FACTOR", "12"))
@@ -10,7 +10,7 @@ EP_THOROUGH_FACTOR = int(os.environ.get("VERIF_EP_THOROUGH_FACTOR", os.environ.g
 
 STREAM_FN = {
     "pair": hc_streams.pair_faulty, "ideal": hc_streams.pair_ideal, "live": hc_streams.pair_liveness,
-    "blackout": hc_streams.pair_blackout, "ratepair": hc_streams.pair_nocredit, "hostile": hc_streams.hostile, "ackflood": hc_streams.ackflood, "chanmix": hc_streams.chanmix, "tswin": hc_streams.tswin, "ideallat": hc_streams.ideallat, "cadence": hc_streams.cadence, "mixack": hc_streams.mixack,
+    "blackout": hc_streams.pair_blackout, "ratepair": hc_streams.pair_nocredit, "hostile": hc_streams.hostile, "ackflood": hc_streams.ackflood, "chanmix": hc_streams.chanmix, "tswin": hc_streams.tswin, "ideallat": hc_streams.ideallat, "cadence": hc_streams.cadence, "mixack": hc_streams.mixack, "rttstep": hc_streams.rttstep,
     "tx": hc_streams.tx, "rate": hc_streams.rate, "twin": hc_streams.twin, "reuse": hc_streams.reuse,
 }
 
